@@ -35,6 +35,8 @@ type binder struct{ name, sort string }
 // generation order, so that every obligation can be checked against exactly the
 // prefix of definitions and assumptions that precede it in program order.
 type Script struct {
+	defs      map[string]string            // defined name -> body (definitions without binders)
+	elemFacts map[string]map[string]string // declared array -> literal index -> element term
 	lines    []string
 	declared map[string]string // name -> sort text ("" for functions)
 	n        int
@@ -43,7 +45,7 @@ type Script struct {
 }
 
 func newScript() *Script {
-	s := &Script{declared: map[string]string{}}
+	s := &Script{declared: map[string]string{}, defs: map[string]string{}, elemFacts: map[string]map[string]string{}}
 	s.lines = append(s.lines,
 		"(declare-sort Str 0)",
 	)
@@ -148,6 +150,7 @@ func (s *Script) define(prefix, sort, body string) string {
 	name := s.freshName(prefix)
 	if len(s.binders) == 0 {
 		s.add(fmt.Sprintf("(define-fun %s () %s %s)", name, sort, body))
+		s.defs[name] = body
 		return name
 	}
 	s.add(fmt.Sprintf("(define-fun %s (%s) %s %s)", name, s.binderDecl(), sort, body))
@@ -282,3 +285,205 @@ func eq(a, b string) string {
 func sel(a, i string) string      { return "(select " + a + " " + i + ")" }
 func sto(a, i, v string) string   { return "(store " + a + " " + i + " " + v + ")" }
 func app(f string, xs ...string) string { return "(" + f + " " + strings.Join(xs, " ") + ")" }
+
+// ---- term simplification (select over store / ite / constant arrays) ----
+
+// splitApp splits "(op a b c)" into its top-level tokens.
+func splitApp(t string) []string {
+	if len(t) < 2 || t[0] != '(' || t[len(t)-1] != ')' {
+		return nil
+	}
+	in := t[1 : len(t)-1]
+	var toks []string
+	depth := 0
+	start := -1
+	for i := 0; i < len(in); i++ {
+		c := in[i]
+		switch c {
+		case '(':
+			if depth == 0 && start < 0 {
+				start = i
+			}
+			depth++
+		case ')':
+			depth--
+			if depth == 0 {
+				toks = append(toks, in[start:i+1])
+				start = -1
+			}
+		case ' ':
+			if depth == 0 && start >= 0 {
+				toks = append(toks, in[start:i])
+				start = -1
+			}
+		default:
+			if depth == 0 && start < 0 {
+				start = i
+			}
+		}
+	}
+	if start >= 0 {
+		toks = append(toks, in[start:])
+	}
+	return toks
+}
+
+// resolve follows definitions until the term is compound or an undefined atom.
+func (s *Script) resolve(t string) string {
+	for i := 0; i < 64; i++ {
+		b, ok := s.defs[t]
+		if !ok {
+			return t
+		}
+		t = b
+	}
+	return t
+}
+
+func bvLitVal(t string) (uint64, int, bool) {
+	if !isBVLit(t) {
+		return 0, 0, false
+	}
+	var v uint64
+	var n int
+	if _, err := fmt.Sscanf(t, "(_ bv%d %d)", &v, &n); err != nil {
+		return 0, 0, false
+	}
+	return v, n, true
+}
+
+// litOf resolves a term to a bit-vector literal if it is one.
+func (s *Script) lit(t string) (string, bool) {
+	r := s.resolve(t)
+	if isBVLit(r) {
+		return r, true
+	}
+	return "", false
+}
+
+// sel is select with simplification.
+func (s *Script) sel(a, i string) string {
+	return s.selDepth(a, i, 0)
+}
+
+func (s *Script) selDepth(a, i string, depth int) string {
+	if depth > 200 {
+		return sel(a, i)
+	}
+	il, iLit := s.lit(i)
+	if iLit {
+		i = il
+	}
+	if iLit {
+		if m, ok := s.elemFacts[a]; ok {
+			if v, ok := m[i]; ok {
+				return v
+			}
+		}
+	}
+	cur := a
+	for steps := 0; steps < 400; steps++ {
+		r := s.resolve(cur)
+		if iLit {
+			if m, ok := s.elemFacts[r]; ok {
+				if v, ok := m[i]; ok {
+					return v
+				}
+			}
+		}
+		toks := splitApp(r)
+		if len(toks) == 0 {
+			return sel(cur, i)
+		}
+		switch {
+		case toks[0] == "store" && len(toks) == 4:
+			j := toks[2]
+			if jl, ok := s.lit(j); ok {
+				j = jl
+			}
+			if j == i {
+				return toks[3]
+			}
+			if iLit && isBVLit(j) {
+				cur = toks[1]
+				continue
+			}
+			return sel(cur, i)
+		case toks[0] == "ite" && len(toks) == 4:
+			x := s.selDepth(toks[2], i, depth+1)
+			y := s.selDepth(toks[3], i, depth+1)
+			return ite(toks[1], x, y)
+		case strings.HasPrefix(toks[0], "(as const") && len(toks) == 2:
+			return toks[1]
+		case toks[0] == "select" && len(toks) == 3:
+			// nested: select(select(H, r), i): simplify the inner select first
+			inner := s.selDepth(toks[1], toks[2], depth+1)
+			if inner != r {
+				cur = inner
+				continue
+			}
+			return sel(cur, i)
+		}
+		return sel(cur, i)
+	}
+	return sel(cur, i)
+}
+
+// selIte pushes a select through an ite-valued index of literals.
+func (s *Script) selIdx(a, i string) string {
+	r := s.resolve(i)
+	toks := splitApp(r)
+	if len(toks) == 4 && toks[0] == "ite" {
+		return ite(toks[1], s.selIdx(a, toks[2]), s.selIdx(a, toks[3]))
+	}
+	return s.sel(a, i)
+}
+
+// eqS is equality with folding through literal-valued ites.
+func (s *Script) eqS(a, b string) string {
+	if a == b {
+		return "true"
+	}
+	ra, rb := s.resolve(a), s.resolve(b)
+	if isBVLit(ra) && isBVLit(rb) {
+		if ra == rb {
+			return "true"
+		}
+		return "false"
+	}
+	if isBVLit(rb) {
+		toks := splitApp(ra)
+		if len(toks) == 4 && toks[0] == "ite" {
+			x, y := s.eqS(toks[2], rb), s.eqS(toks[3], rb)
+			if (x == "true" || x == "false") && (y == "true" || y == "false") {
+				return ite(toks[1], x, y)
+			}
+		}
+	}
+	if isBVLit(ra) && !isBVLit(rb) {
+		return s.eqS(b, a)
+	}
+	return eq(a, b)
+}
+
+// addS folds additions of literals.
+func (s *Script) addS(a, b string) string {
+	la, oka := s.lit(a)
+	lb, okb := s.lit(b)
+	if oka && okb {
+		va, n, _ := bvLitVal(la)
+		vb, _, _ := bvLitVal(lb)
+		return bvLit(va+vb, n)
+	}
+	if okb {
+		if v, _, _ := bvLitVal(lb); v == 0 {
+			return a
+		}
+	}
+	if oka {
+		if v, _, _ := bvLitVal(la); v == 0 {
+			return b
+		}
+	}
+	return app("bvadd", a, b)
+}
